@@ -32,5 +32,7 @@ for p in props:
         man["checks"].append(c)
     else:
         man["not_applicable"].append({"property_id": pid, "reason": meta.get("na", {}).get(pid, "check not built yet in this session (planned, see DESIGN.md section 3)")})
+for e in man["engines"]:
+    e["serves_properties"] = [c["property_id"] for c in man["checks"]]
 json.dump(man, open(os.path.join(root, "MANIFEST.json"), "w"), indent=1)
 print("checks:", len(man["checks"]), "not_applicable:", len(man["not_applicable"]))
